@@ -7,6 +7,8 @@ from .framework import seed
 TYPES = [("uint8_t", 8, False), ("int8_t", 8, True), ("uint16_t", 16, False), ("int16_t", 16, True),
          ("uint32_t", 32, False), ("int32_t", 32, True), ("uint64_t", 64, False), ("int64_t", 64, True)]
 TNAME = [t[0] for t in TYPES]
+# the other widths the grammar's BIT_WIDTH terminal admits (1, 2 and 4 bit): rank = width, promoted to int like every type below 32 bit
+NARROW = [("uint1_t", 1, False), ("int1_t", 1, True), ("uint2_t", 2, False), ("int2_t", 2, True), ("uint4_t", 4, False), ("int4_t", 4, True)]
 BINOPS = ["+", "-", "*", "&", "|", "^", "<<", ">>", "<", ">", "<=", ">=", "==", "!=", "&&", "||"]
 ARITH = ["+", "-", "*", "&", "|", "^"]
 SHIFT = ["<<", ">>"]
@@ -106,9 +108,46 @@ def c02_const_sides():
     return out
 
 
+def c02_narrow():
+    """Operators and conversions on the 1-, 2- and 4-bit integer types."""
+    out = []
+    partners = NARROW + [TYPES[0], TYPES[3], TYPES[5], TYPES[6]]
+    for (t1, w1, _), (t2, w2, _), op in itertools.product(NARROW, partners, BINOPS):
+        out.append(f"{{ {decl(t1, w1, 'a', 's')} {decl(t2, w2, 'b', 't')} RddV = a {op} b; }}")
+        if (t2, w2) not in [(n[0], n[1]) for n in NARROW]:
+            out.append(f"{{ {decl(t2, w2, 'b', 't')} {decl(t1, w1, 'a', 's')} RddV = b {op} a; }}")
+    for (t, w, _) in NARROW:
+        d = decl(t, w, "a", "s")
+        for u in UNOPS:
+            out.append(f"{{ {d} RddV = {u}a; }}")
+        out += [f"{{ {d} RddV = a ? 3 : 4; }}", f"{{ {d} RddV = (RtV > 0) ? a : -a; }}", f"{{ {d} if (a) {{ RddV = 1; }} else {{ RddV = 2; }} }}",
+                f"{{ {d} RddV = (a && RtV) + (a || RtV) * 2; }}", f"{{ {d} for (i = 0; a && (i < 2); i++) {{ RxV = RxV + 1; }} }}",
+                f"{{ {d} a++; RddV = a; }}", f"{{ {d} a--; RddV = a; }}", f"{{ {d} a += 9; RddV = a; }}", f"{{ {d} a <<= 1; RddV = a; }}",
+                f"{{ {d} a >>= 1; RddV = a; }}", f"{{ {d} a *= 3; RddV = a; }}", f"{{ {d} a ^= RtV; RddV = a; }}", f"{{ {d} RddV = a++ + a--; }}",
+                f"{{ RddV = ({t})RsV; }}", f"{{ RddV = ({t})RssV; }}", f"{{ RddV = ({t})(RsV > RtV); }}", f"{{ RddV = (int64_t)({t})RsV; }}",
+                f"{{ RddV = (uint64_t)({t})RsV; }}", f"{{ if (({t})RsV) {{ RddV = 1; }} else {{ RddV = 2; }} }}", f"{{ RddV = (({t})RsV) ? RtV : RuV; }}",
+                f"{{ {d} mem_store_u8(RtV, a); }}", f"{{ {d} PdV = a; }}", f"{{ {d} RxV = a; }}", f"{{ {t} q; q = mem_load_s8(RtV); RddV = q; }}",
+                f"{{ {t} q; RxV = 0; for (q = RuV; q; q <<= 1) {{ RxV = RxV + 1; }} }}"]
+        for (t2, w2, _) in TYPES + NARROW:
+            out.append(f"{{ {d} {t2} b = a; RddV = b; }}")
+            out.append(f"{{ {decl(t2, w2, 'b', 't')} {t} c = b; RddV = c; }}")
+            out.append(f"{{ {d} RddV = ({t2})a; }}")
+    return out
+
+
+def c02_const_truth():
+    """&& and || with a compile-time truth value on one side: still the operator's C truth table."""
+    out = []
+    for k, y, op in itertools.product(["(2 > 1)", "(1 > 2)", "1", "0", "5", "(3 == 3)"], ["(RsV == 7)", "RsV", "(RsV > RtV)", "(!RsV)", "RssV"], ["&&", "||"]):
+        out.append(f"{{ RddV = {k} {op} {y}; }}")
+        out.append(f"{{ RddV = {y} {op} {k}; }}")
+    return out
+
+
 def c02(tier):
     rng = random.Random(seed() * 7919 + 2)
-    return c02_depth1() + c02_const_sides() + c02_depth2(tier, rng) + c02_random(tier, rng)
+    nr = c02_narrow()
+    return c02_depth1() + c02_const_sides() + c02_const_truth() + (nr if tier == "thorough" else nr[::3]) + c02_depth2(tier, rng) + c02_random(tier, rng)
 
 
 def wf_subs():
@@ -172,6 +211,8 @@ def wf_family(prop, tier):
         out.append("{ RdV = " + " | ".join(["P0"] * n) + "; }")
         out.append("{ RdV = " + " + ".join(["HEX_REG_ALIAS_SP"] * n) + "; }")
     out += mixed(tier, 2500 if tier == "thorough" else 200, salt=10, stmt_expr=False)
+    nr = c02_narrow()
+    out += nr if tier == "thorough" else nr[1::2]
     return list(dict.fromkeys(out))
 
 
@@ -189,6 +230,13 @@ def layout_family(tier):
     out += c05_random(tier, rng)
     out += c07(tier)[:: (1 if tier == "thorough" else 5)]
     out += mixed(tier, 2000 if tier == "thorough" else 150, salt=16)
+    c3 = c03(tier)
+    out += c3[:: (1 if tier == "thorough" else 4)]
+    c17p = c17(tier)
+    out += c17p[:: (1 if tier == "thorough" else 5)]
+    out += C15_TOPLEVEL
+    nr = c02_narrow()
+    out += nr[:: (2 if tier == "thorough" else 9)]
     return list(dict.fromkeys(out))
 
 
@@ -445,6 +493,13 @@ def c06(tier):
         out.append(f"{{ {C06_PRE} RyV = clz32({h1}) - {h2}; {C06_POST} }}")
         out.append(f"{{ {C06_PRE} if ({h1} > {h2}) {{ RyV = 1; }} {C06_POST} }}")
         out.append(f"{{ {C06_PRE} RyV = (RuV > 0) ? {h1} : {h2}; {C06_POST} }}")
+    # a side effect in the CONDITION of a ?: whose arm is a statement-expression (condition first, then the selected arm only)
+    for hc in ["(n++ > 0)", "(clz32(n) > 3)", "((n--) & 1)", "(({ n = n + 5; n; }) > 7)", "(revbit32(n) != 0)"]:
+        for arm in ["({ m = m + 2; m; })", "({ RxV = RxV + 1; RxV; })"]:
+            out.append(f"{{ {C06_PRE} RyV = {hc} ? {arm} : RtV; {C06_POST} }}")
+            out.append(f"{{ {C06_PRE} RyV = {hc} ? RtV : {arm}; {C06_POST} }}")
+            out.append(f"{{ {C06_PRE} RyV = {hc} ? {arm} : ({{ m = m * 3; m; }}); {C06_POST} }}")
+            out.append(f"{{ {C06_PRE} if ({hc}) {{ RyV = {arm}; }} else {{ RyV = 9; }} {C06_POST} }}")
     # loop steps
     for step in ["i++", "i = i + 1", "i += 2", "n++", "n--"]:
         v = "i" if step[0] == "i" else "n"
@@ -566,6 +621,9 @@ def c08_subs():
         "vf_wide": dict(return_type="uint64_t", params=["int8_t a", "int64_t b"], code="{ return a * b; }"),
         "vf_two": dict(return_type="uint16_t", params=["uint8_t a", "int16_t b"],
                        code="{ uint16_t vf_two_t = a; if (b < 0) { vf_two_t = vf_two_t - b; } return vf_two_t; }"),
+        # names with upper-case letters (definition and call site must agree on the C identifier)
+        "vf_SatAdd8": dict(return_type="int32_t", params=["int32_t a", "int32_t b"], code="{ if (a + b > 127) { return 127; } else { return a + b; } }"),
+        "VF_UPPER": dict(return_type="uint16_t", params=["uint16_t a"], code="{ return vf_SatAdd8(a, 1) + 2; }"),
         "vf_loop": dict(return_type="uint32_t", params=["uint32_t a"],
                         code="{ uint32_t vf_loop_s = 0; int vf_loop_i; for (vf_loop_i = 0; vf_loop_i < 3; vf_loop_i++) { vf_loop_s = vf_loop_s * 2 + a; } return vf_loop_s; }"),
     })
@@ -574,7 +632,7 @@ def c08_subs():
 
 C08_PRE = "int32_t n = RsV; int32_t m = RtV; RyV = n;"
 C08_POST = "RyV = RyV * 3 + n; RzV = RzV ^ m;"
-C08_CALLS = ["vf_br(n, m)", "vf_early(n)", "vf_post(n)", "vf_nest(n)", "vf_nest2(n, m)", "vf_loc(m)", "vf_narrow(n)",
+C08_CALLS = ["vf_SatAdd8(n, m)", "VF_UPPER(n)", "vf_br(n, m)", "vf_early(n)", "vf_post(n)", "vf_nest(n)", "vf_nest2(n, m)", "vf_loc(m)", "vf_narrow(n)",
              "vf_wide(n, m)", "vf_two(n, m)", "vf_loop(m)", "clz32(n)", "clo32(m)", "fbrev(n)", "revbit32(m)",
              "conv_round(n, 2)", "vf_id_int8_t(n)", "vf_conv_int16_t_uint64_t(m)"]
 
@@ -689,6 +747,23 @@ def c09(tier):
         for c in ("0", "1", "(2 > 3)"):
             out.append(f"{{ int32_t n = RvV; RdV = ({c} ? {h1} : {h2}) + {h3}; RxV = n; }}")
             out.append(f"{{ int32_t n = RvV; RdV = {h3} + ({c} ? {h1} : {h2}); RxV = n; }}")
+    # compile-time truth values as operands of && || ! ?: next to run-time operands (folding must not change the operator's table)
+    consts = ["(2 > 1)", "(1 > 2)", "1", "0", "5", "(3 == 3)", "(3 != 3)", "(0 < 1U)"]
+    dyn = ["(RsV == 7)", "RsV", "(RsV > RtV)", "(!RsV)", "(RsV & 1)"]
+    for k, y in itertools.product(consts, dyn):
+        for op in ("&&", "||"):
+            out.append(f"{{ RddV = {k} {op} {y}; }}")
+            out.append(f"{{ RddV = {y} {op} {k}; }}")
+            out.append(f"{{ if ({k} {op} {y}) {{ RddV = 1; }} else {{ RddV = 2; }} }}")
+        out.append(f"{{ RddV = (!{k}) + {y}; }}")
+        out.append(f"{{ RddV = {y} ? {k} : (!{k}); }}")
+    for k1, k2 in itertools.product(consts[:5], consts[:5]):
+        out.append(f"{{ RddV = ({k1} && {k2}) + ({k1} || {k2}) * 2 + RssV; }}")
+    # the same literal spelled twice in one body, in different contexts (a literal object must not be shared and re-typed in place)
+    for l in ["0x80000000U", "4294967295U", "1U", "3U", "0xffffffffffffffffULL", "255", "1ULL", "0x7fffffff"]:
+        for second in (f"~{l}", f"{l} >> 1", f"(int64_t){l}", f"{l} + RssV", f"!{l}", f"({l} < RssV)", f"-{l}"):
+            out.append(f"{{ RddV = {l}; RxxV = {second}; }}")
+            out.append(f"{{ RxxV = {second}; RddV = {l}; }}")
     for t in ["int8_t", "uint16_t", "int32_t", "uint64_t", "int", "unsigned int"]:
         out.append(f"{{ RddV = sizeof({t}); }}")
         out.append(f"{{ {t} v = RsV; RddV = sizeof(v); }}")
@@ -724,6 +799,12 @@ C15_STMTS = [
 ]
 
 
+C15_TOPLEVEL = ["{ RxV = 1; } { RyV = 2; }", "RxV = 1; RyV = 2;", "{} { RxV = RsV; }", "RxV = RsV; { RyV = RxV; } RyV = RyV + 3;",
+                "{ RxV = RsV; } { RyV = RxV + 1; } { RxV = RyV * 2; }", "{ int32_t n = RsV; RxV = n; } RyV = RtV;",
+                "if (RsV) { RxV = 1; } RyV = 2;", "for (i = 0; i < 2; i++) { RxV = RxV + i; } RyV = RxV;", "mem_store_u8(RsV, RtV); RxV = 1;",
+                "RxV = clz32(RsV); RyV = clo32(RtV);", "; RxV = 1;", "{ } { }", "{ RxV = 1; } ;", "JUMP(RsV); RxV = 1;", "RxV = 1; { }"]
+
+
 def c15(tier):
     out = []
     for car in C15_CARRIERS:
@@ -737,6 +818,8 @@ def c15(tier):
         out.append(f"{{ int32_t n = RsV; mem_store_u32(RtV, {e}); }}")
         out.append(f"{{ int32_t n = RsV; RyV = (RtV > 0) ? {e} : 2; }}")
         out.append(f"{{ int32_t n = RsV; for (i = 0; i < {e}; i++) {{ RyV = RyV + 1; }} }}")
+    # several top-level statements: the body rule is stmt*, every one of them is part of the effect
+    out += C15_TOPLEVEL
     return out
 
 
@@ -812,6 +895,10 @@ def c17(tier):
             "{ RxV=RsV<<RtV; }", "{ RxV=RsV<RtV; }", "{ RxV=RsV<=RtV; }", "{ RxV=RsV<<1<=RtV; }", "{ RxV=RsV>>1>=RtV; }",
             "{ RxV=RsV>RtV>>1; }", "{ RxV = RsV --- RtV; }" if False else "{ RxV = RsV - - - RtV; }", "{ RxV = RsV++ + RtV; }",
             "{ RxV = RsV+ +RtV; }", "{ RxV = 0x10+RsV; }", "{ RxV = 0x1f&RsV; }", "{ RxV = 10U+RsV; }", "{ RxV = 1LL<<RsV; }"]
+    # postfix ++ / -- directly followed by every binary operator (the lexer must take '++' / '--' as one token: maximal munch)
+    for op in C17_BIN:
+        out.append(f"{{ {d} int32_t e = RvV; RddV = e++ {op} b; RxV = e; }}")
+        out.append(f"{{ {d} int32_t e = RvV; RddV = e-- {op} b; RxV = e; }}")
     # every binary operator without blanks between operands of every token kind (a terminal must not swallow its neighbours)
     for op in C17_BIN:
         for l, r in [("1", "RsV"), ("RsV", "1"), ("RsV", "RtV"), ("3", "clz32(RtV)"), ("(RsV)", "(RtV)"), ("siV", "RsV"), ("a", "b"), ("0x1f", "b"),
